@@ -50,6 +50,7 @@ type fakeServer struct {
 	armed   bool // faults and the trace are active (after Open)
 	trace   []string
 	unknown []string
+	views   map[int][]int  // schema id -> views: never asked for by the OSS inspectors, not part of the model's case line
 	other   map[string]int // catalogue queries answered with no rows
 	spPrev  bool
 }
@@ -110,6 +111,21 @@ func (f *fakeServer) final() string {
 		return "-"
 	}
 	return strings.Join(ps, ";")
+}
+
+// viewsText: the views on the server, canonical ("-" if none)
+func (f *fakeServer) viewsText() string {
+	var ps []string
+	for _, s := range f.schemas {
+		for _, v := range f.views[s.id] {
+			ps = append(ps, fmt.Sprintf("%d.v%d", s.id, v))
+		}
+	}
+	if len(ps) == 0 {
+		return "-"
+	}
+	sort.Strings(ps)
+	return strings.Join(ps, ",")
 }
 
 var errFault = errors.New("VERIF-FAULT")
@@ -273,7 +289,7 @@ func (f *fakeServer) queryPG(q string, a []string) (driver.Rows, error) {
 	return nil, fmt.Errorf("fake: unexpected query %q", q)
 }
 
-var stmtRe = regexp.MustCompile("(?i)^\\s*(CREATE|DROP)\\s+(TABLE|DATABASE|SCHEMA)(\\s+IF\\s+NOT\\s+EXISTS|\\s+IF\\s+EXISTS)?\\s+[`\"](\\w+)[`\"](?:\\.[`\"](\\w+)[`\"])?")
+var stmtRe = regexp.MustCompile("(?i)^\\s*(CREATE|DROP)\\s+(TABLE|DATABASE|SCHEMA|VIEW)(\\s+IF\\s+NOT\\s+EXISTS|\\s+IF\\s+EXISTS)?\\s+[`\"](\\w+)[`\"](?:\\.[`\"](\\w+)[`\"])?")
 
 func (f *fakeServer) exec(q string) (driver.Result, error) {
 	f.mu.Lock()
@@ -290,6 +306,11 @@ func (f *fakeServer) exec(q string) (driver.Result, error) {
 		return driver.ResultNoRows, nil
 	}
 	verb, kind, cond := strings.ToUpper(m[1]), strings.ToUpper(m[2]), strings.TrimSpace(m[3]) != ""
+	if kind == "VIEW" {
+		// (only the harness' own set-up and the oracle look at views)
+		f.trace = append(f.trace, "other")
+		return driver.ResultNoRows, nil
+	}
 	if kind == "TABLE" {
 		sc, tn := f.cur, m[4]
 		if m[5] != "" {
@@ -357,6 +378,7 @@ func (f *fakeServer) exec(q string) (driver.Result, error) {
 		}
 	}
 	f.schemas = l
+	delete(f.views, sc)
 	f.trace = append(f.trace, fmt.Sprintf("ds:%d", sc))
 	return driver.ResultNoRows, nil
 }
@@ -403,6 +425,7 @@ type srvCase struct {
 	body2   []srvStmt // twice: the script of the second session on the same driver
 	desired []fsch    // norms: one entry (id ignored); normr: the realm
 	faults  []int
+	views   [][2]int // (schema id, view id) present at the start; invisible to the model
 	label   string
 }
 
@@ -490,6 +513,8 @@ type srvResult struct {
 	rerr    bool
 	out2    string
 	rerr2   bool
+	views0  string
+	views1  string
 	mid     string // twice: the catalogue between the two sessions
 	trace2  int    // twice: statements executed by the second session
 	calls   int
@@ -519,12 +544,17 @@ func runSrv(c *srvCase) (r srvResult) {
 	srvSeq++
 	name := fmt.Sprintf("srv%d", srvSeq)
 	srvMu.Unlock()
-	fs := &fakeServer{pg: c.pg, cur: c.bound, faults: map[int]bool{}, other: map[string]int{}}
+	fs := &fakeServer{pg: c.pg, cur: c.bound, faults: map[int]bool{}, other: map[string]int{}, views: map[int][]int{}}
 	if c.pg && c.bound < 0 {
 		fs.cur = 0 // PostgreSQL: the default search_path puts unqualified names into "public" (CURRENT_SCHEMA())
 	}
 	for _, s := range c.schemas {
 		fs.schemas = append(fs.schemas, &fsch{id: s.id, tabs: append([]int(nil), s.tabs...)})
+	}
+	for _, v := range c.views {
+		if sc := fs.find(v[0]); sc != nil {
+			fs.views[v[0]] = append(fs.views[v[0]], v[1])
+		}
 	}
 	for _, k := range c.faults {
 		fs.faults[k] = true
@@ -552,6 +582,7 @@ func runSrv(c *srvCase) (r srvResult) {
 		setPGSchema(drv, sname(true, c.bound))
 	}
 	r.start = fs.final()
+	r.views0 = fs.viewsText()
 	fs.armed = true
 	ctx := context.Background()
 	var nc *migrate.NotCleanError
@@ -624,6 +655,7 @@ func runSrv(c *srvCase) (r srvResult) {
 		return
 	}
 	r.calls, r.final, r.trace = fs.calls, fs.final(), fs.trace
+	r.views1 = fs.viewsText()
 	tr := strings.Join(fs.trace, ",")
 	if tr == "" {
 		tr = "-"
@@ -745,6 +777,22 @@ func srvOracle(w *out.W, c *srvCase, r *srvResult) {
 		d = "pg"
 	}
 	ctxt := fmt.Sprintf("%s bound=%d start=%s scen=%s faults=%v outcome=%s rerr=%v trace=%s final=%s", d, c.bound, r.start, c.scen, c.faults, r.outcome, r.rerr, strings.Join(r.trace, ","), r.final)
+	if len(c.views) > 0 {
+		// a view in what the connection owns is content: refused, and untouched
+		owned := false
+		for _, v := range c.views {
+			if b := effBound(c); b < 0 || b == v[0] {
+				owned = true
+			}
+		}
+		declined := r.outcome == "refused" || r.outcome == "snaperr"
+		if owned && r.views1 != r.views0 {
+			w.Violation(c.id, "nonempty-dev-damaged", "server-view "+ctxt+fmt.Sprintf(" views=%s views-after=%s: the dev database held a view and it was destroyed", r.views0, r.views1))
+		} else if owned && !declined {
+			w.Violation(c.id, "nonempty-dev-not-refused", "server-view "+ctxt+fmt.Sprintf(" views=%s: the dev database held a view and was not refused", r.views0))
+		}
+		return
+	}
 	if c.scen == "twice" {
 		// the state a (failed) RestoreFunc leaves is judged anew by the next Snapshot: content the
 		// connection owns => the second session is declined and executes nothing
@@ -858,6 +906,19 @@ func genSrv(pg bool, tier string) []*srvCase {
 			}
 		}
 	}
+	// a database that holds nothing but a view (the OSS inspectors never list views)
+	for _, b := range bounds {
+		for _, body := range [][]srvStmt{nil, bodies[1], bodies[2]} {
+			for _, cat := range [][]fsch{{{ids[0], nil}}, {{ids[0], nil}, {ids[1], nil}}} {
+				for _, vs := range []int{ids[0], ids[1]} {
+					if vs == ids[1] && len(cat) == 1 {
+						continue
+					}
+					bases = append(bases, &srvCase{bound: b, schemas: cat, scen: "sess", body: body, views: [][2]int{{vs, 9}}, label: "views"})
+				}
+			}
+		}
+	}
 	for _, b := range bases {
 		b.pg = pg
 		add(b)
@@ -867,7 +928,7 @@ func genSrv(pg bool, tier string) []*srvCase {
 		}
 		// a fault at every call of the fault-free run (queries and execs alike)
 		heavy := len(b.schemas) == 2 && len(b.schemas[0].tabs)+len(b.schemas[1].tabs) >= 3
-		if heavy && tier != "thorough" {
+		if (heavy && tier != "thorough") || len(b.views) > 0 {
 			continue
 		}
 		for k := 1; k <= r.calls; k++ {
